@@ -1,5 +1,7 @@
 import SynKitModel.CrnCanon
 import SynKitProofs.CrnCanonLemmas
+import SynKitProofs.CrnIRLemmas
+import SynKitProofs.CrnIRViews
 /-!
 # C18 — network canonical form is a complete invariant; automorphism data are exact
 
@@ -21,10 +23,10 @@ the configured node / arc keys, the enumerator `allIsoD`, `canonBy`, `canonBrute
    same specification-level exact form (`canonBruteD_invariant` / `canonBruteD_complete`:
    isomorphic ⇔ equal form; network level: `canonBruteD_sameUpToNames_bip/_species`); and canonical
    graphs taken along *corresponding* orders are identical on the keys (`canon_equivariant`).
-   What is **not** a theorem is that the implementation's IR search returns corresponding orders
-   (up to an automorphism) on isomorphic inputs — the search is not modelled; that is what the
-   kernel-agreement stream of the correspondence checks on every run.  `FullStatement` below
-   therefore states clause 3 for `canonBruteD`;
+   `FullStatement` below states clause 3 for `canonBruteD`.  That the implementation's IR search
+   itself returns corresponding orders (up to an automorphism) on isomorphic inputs is proved in
+   the last section of this file (`crn_ir_invariant`, `crn_ir_sameUpToNames_bip/_species`,
+   `C18.IRStatement`) over the model `SynKitModel/CrnIR.lean` of `_search`;
 4. *the automorphism count is the number of structure-preserving self-maps* — `mem_allIsoD`,
    `allIsoD_nodup`, `autcount_spec`;
 5. *the orbits are exactly the classes of nodes exchangeable by automorphisms* —
@@ -117,7 +119,7 @@ theorem orbitsFast_eq (sel : SelD) (G : LGraph) : orbitsFast sel G = orbitsD sel
 structure-preservingly and `perm` is an order of `G`, the canonical graph of `G'` along the
 transported order and the canonical graph of `G` along `perm` are identical on the configured
 keys.  (So a search that returns corresponding orders — up to an automorphism — on isomorphic
-inputs yields identical canonical graphs; that the IR search does so is gated, not proved.) -/
+inputs yields identical canonical graphs; that the IR search does so is `crn_ir_invariant` below.) -/
 theorem canon_equivariant (sel : SelD) (G G' : LGraph) (f : Nat → Nat) (perm : List Nat)
     (hG : WFD G) (hG' : WFD G') (hf : IsIsoF sel G' G f) (hperm : IsOrder G perm) :
     IsOrder G' (perm.map f) ∧ IsIsoF sel (canonBy G' (perm.map f)) (canonBy G perm) id :=
@@ -264,5 +266,240 @@ example : SameUpToNames exRev exRevRenamed := by
     rcases hrr with rfl | rfl
     · exact ⟨rfl, List.Perm.swap _ _ _, List.Perm.refl _⟩
     · exact ⟨rfl, List.Perm.refl _, List.Perm.swap _ _ _⟩
+
+/-! ## The search the implementation runs: individualisation–refinement (`CRNCanonicalizer._search`)
+
+Model `SynKitModel/CrnIR.lean` (mirror of `_init_part`, `_sig`, `_refine`, `_label`, `_search`,
+`_orbits_from_perms`, `_canon` of `synkit/CRN/Topo/canon.py`; no pruning, `max_depth = timeout_sec =
+None`); lemma files `SynKitProofs/CrnIR{Order,Equiv,Wf,Search,Tie,Lemmas,Views}.lean`.  This section
+closes the gap named at clause 3 above: *"two networks that differ only by renaming species,
+reordering reactions or regenerating reaction ids receive identical canonical graphs"* is proved for
+the canonical graph **the search itself produces** (`canonIRD`, `crnIrOrder`), not only for the
+specification-level `canonBruteD`.
+
+Python compares rendered label *strings*; the model keeps labels structured (`CrnLabel`) and every
+theorem holds for **every** strict total order on them (`…_anyOrder`); `CrnLabel.lt` is the
+instance the driver runs.  Hypotheses: node ids distinct and arcs between nodes (`WFD`: what a
+NetworkX `DiGraph` guarantees; self-loops allowed), and `CrnAttrOK`: no selected attribute is `None`
+or `""` (`_label` reads an absent attribute as `""`, `_sig` as `None`) and `order` is not tuple
+valued — true of both views of every network (`views_attrOK`).  `CrnDefined` (at least one node, or
+at least one node key) is where the code does not raise `StopIteration`. -/
+
+open SynKit.Canon (StrictTotal PartRel PartSub IRPartOK)
+
+/-- **C18, IR search, step 1 (refinement is equivariant).** For a node map `g : H → G` preserving
+the look-ups of the selected node and arc attributes on every ordered pair (`CrnIso`), the initial
+partitions correspond cell by cell and `_refine` maps corresponding partitions to corresponding
+partitions. -/
+theorem crn_refine_equivariant (sel : SelD) (G H : LGraph) (g : Nat → Nat) (hG : G.ids.Nodup) (h : CrnIso sel G H g) :
+    PartRel g (crnInitPart sel H) (crnInitPart sel G) ∧
+    ∀ P' P, PartRel g P' P → PartSub H.ids P' → PartRel g (crnRefine sel H P') (crnRefine sel G P) :=
+  ⟨crnInitPart_rel h, fun _ _ hP hs => crnRefine_rel hG h hP hs⟩
+
+/-- **C18, IR search, step 2 (the search trees correspond).** The leaves of `G`'s search tree are
+exactly the images under `g` of the leaves of `H`'s, and corresponding leaves carry the same
+label. -/
+theorem crn_ir_leaves_equivariant (sel : SelD) (G H : LGraph) (g : Nat → Nat) (hG : G.ids.Nodup) (h : CrnIso sel G H g) :
+    (∀ l, l ∈ crnRootLeaves sel G ↔ ∃ l' ∈ crnRootLeaves sel H, l = (l'.1.map g, l'.2.map g)) ∧
+    (∀ l' ∈ crnRootLeaves sel H, crnLeafLabel sel G (l'.1.map g, l'.2.map g) = crnLeafLabel sel H l') :=
+  ⟨crnRootLeaves_rel hG h, fun _ hl' => crnLeafLabel_rel h hl'⟩
+
+/-- **C18, IR search, step 3 (what `_search` returns).** The search is the fold of its leaf case
+over the leaves of the search tree; on a graph with distinct ids it returns a leaf with the least
+label, whose permutation lists every node exactly once (the point of repair F13), `perms` are the
+permutations of *all* leaves with that label, and `perms[0]` is `canonical_perm`. -/
+theorem crn_ir_result_spec (lt : CrnLabel → CrnLabel → Bool) (hlt : StrictTotal lt) (sel : SelD) (G : LGraph)
+    (hG : G.ids.Nodup) (hd : CrnDefined sel G) :
+    ∃ m ∈ crnRootLeaves sel G,
+      crnIrWith lt sel G = some ⟨crnLeafLabel sel G m, m.2, crnWithLabel sel G (crnLeafLabel sel G m) (crnRootLeaves sel G)⟩ ∧
+      IsOrder G m.2 ∧ (∀ l ∈ crnRootLeaves sel G, lt (crnLeafLabel sel G l) (crnLeafLabel sel G m) = false) ∧
+      (crnPermsOf (crnIrWith lt sel G)).head? = some m.2 := by
+  obtain ⟨m, hm, e, hp, hl⟩ := crnIrWith_spec lt hlt sel G hG hd
+  refine ⟨m, hm, e, isOrder_of_perm hG hp, hl, ?_⟩
+  have := crnFoldLeaves_head lt sel G (crnRootLeaves sel G) none (fun _ h => by simp at h) _
+    ((crnIrWith_eq_fold lt sel G).symm.trans e)
+  rw [e]
+  exact this
+
+/-- **C18, IR search, step 4 (fuel).** The model recurses on fuel where the code has a `while
+changed` loop and an unbounded recursion.  With the model's fuel neither runs out: `_refine`
+stops because its last pass split nothing (`changed = False`), more fuel gives the same refined
+partition, the same search tree and the same result. -/
+theorem crn_ir_fuel_adequate (lt : CrnLabel → CrnLabel → Bool) (sel : SelD) (G : LGraph) (hG : G.ids.Nodup)
+    (hd : CrnDefined sel G) :
+    (∀ P, IRPartOK G.ids P → ∃ Q, IRPartOK G.ids Q ∧ crnRefine sel G P = crnRefineStep sel G Q ∧
+      (crnRefineStep sel G Q).length = Q.length) ∧
+    (∀ P d, IRPartOK G.ids P → crnRefineLoop sel G (G.nodes.length + 1 + d) P = crnRefine sel G P) ∧
+    (∀ d, crnLeaves sel G (G.nodes.length + 1 + d) (crnInitPart sel G) [] = crnRootLeaves sel G) ∧
+    (∀ d, crnSearch lt sel G (G.nodes.length + 1 + d) (crnInitPart sel G) [] none = crnIrWith lt sel G) :=
+  ⟨fun P hP => crnRefine_last_pass sel G P hP, fun P d hP => crnRefine_fuel sel G P hP d,
+    fun d => crnLeaves_root_fuel sel G hG hd d, fun d => crnIrWith_fuel lt sel G hG hd d⟩
+
+/-- **C18, IR search, step 5 (ties).** Two leaves of one search tree with the same label differ by
+a structure-preserving self-map of the graph: position `i` of the first ↦ position `i` of the
+second.  `_label` skips the diagonal, so self-loops (a catalyst gives `A → A` in the species view)
+are not in the label; they are recovered from the refinement signature, which all leaves share
+position by position. -/
+theorem crn_ir_tie (sel : SelD) (G : LGraph) (hG : G.ids.Nodup) (hd : CrnDefined sel G) (hok : CrnAttrOK sel G)
+    (l l' : List Nat × List Nat) (hl : l ∈ crnRootLeaves sel G) (hl' : l' ∈ crnRootLeaves sel G)
+    (hlab : crnLeafLabel sel G l = crnLeafLabel sel G l') :
+    IsIsoF sel G G (posMap l.2 l'.2) ∧ l.2.map (posMap l.2 l'.2) = l'.2 := by
+  obtain ⟨h1, h2⟩ := crnIso_of_leaves sel G hG hd hok l l' hl hl' hlab
+  exact ⟨isIsoF_of_crnIso hG h1, h2⟩
+
+/-- **C18, clause 3 for the implementation's search, every label order.** For every strict total
+order on labels — in particular Python's comparison of the rendered strings whenever rendering is
+injective on the labels that occur — two views that are isomorphic on the configured keys get the
+same minimum label, and their canonical graphs are identical on the configured keys (the identity
+map is structure preserving between them: same ids `1..N`, same selected node attributes, same
+arcs with the same selected attributes, self-loops included). -/
+theorem crn_ir_invariant_anyOrder (lt : CrnLabel → CrnLabel → Bool) (hlt : StrictTotal lt) (sel : SelD) (G H : LGraph)
+    (hG : WFD G) (hH : WFD H) (aG : CrnAttrOK sel G) (aH : CrnAttrOK sel H) (h : ∃ f, IsIsoF sel G H f) :
+    (crnIrWith lt sel G).map (·.label) = (crnIrWith lt sel H).map (·.label) ∧
+    IsIsoF sel (canonBy G (crnOrderOf (crnIrWith lt sel G))) (canonBy H (crnOrderOf (crnIrWith lt sel H))) id := by
+  obtain ⟨f, hf⟩ := h
+  exact crnIrWith_invariant lt hlt sel G H hG hH aG aH f hf
+
+/-- **C18, clause 3 for the implementation's search (`crn_ir_invariant`).** Isomorphic views get
+the same minimum label and key-identical canonical graphs from the individualisation–refinement
+search as the driver runs it. -/
+theorem crn_ir_invariant (sel : SelD) (G H : LGraph) (hG : WFD G) (hH : WFD H)
+    (aG : CrnAttrOK sel G) (aH : CrnAttrOK sel H) (h : ∃ f, IsIsoF sel G H f) :
+    crnIrLabel sel G = crnIrLabel sel H ∧ IsIsoF sel (canonIRD sel G) (canonIRD sel H) id :=
+  crn_ir_invariant_anyOrder CrnLabel.lt CrnLabel.lt_strictTotal sel G H hG hH aG aH h
+
+/-- **C18, clause 1 for the implementation's search (`crn_ir_faithful`).** `canonical_perm` lists
+every node exactly once, so the canonical graph is isomorphic to the view it was computed from
+(every key choice; all attributes kept) and its ids are `1..N`. -/
+theorem crn_ir_faithful (sel sel' : SelD) (G : LGraph) (hG : WFD G) (hd : CrnDefined sel G) :
+    IsOrder G (crnIrOrder sel G) ∧
+    IsIsoF sel' (canonIRD sel G) G (posOf (crnIrOrder sel G)) ∧
+    (canonIRD sel G).ids.Perm (List.range' 1 G.ids.length) ∧
+    (∀ v ∈ G.ids, (canonIRD sel G).attrs (posOf (crnIrOrder sel G) v) = G.attrs v) ∧
+    (∀ u ∈ G.ids, ∀ v ∈ G.ids,
+      (canonIRD sel G).arc? (posOf (crnIrOrder sel G) u) (posOf (crnIrOrder sel G) v) = G.arc? u v) := by
+  have ho : IsOrder G (crnIrOrder sel G) := crnOrderOf_isOrder CrnLabel.lt CrnLabel.lt_strictTotal sel G hG.1 hd
+  exact ⟨ho, canon_faithful sel' G _ hG ho⟩
+
+/-- **C18, clauses 2 + 3 for the implementation's search: a complete invariant.** The canonical
+graphs of two views are identical on the configured keys exactly when the views are isomorphic on
+them. -/
+theorem crn_ir_complete (sel : SelD) (G H : LGraph) (hG : WFD G) (hH : WFD H)
+    (aG : CrnAttrOK sel G) (aH : CrnAttrOK sel H) (dG : CrnDefined sel G) (dH : CrnDefined sel H) :
+    IsIsoF sel (canonIRD sel G) (canonIRD sel H) id ↔ ∃ f, IsIsoF sel G H f :=
+  ⟨fun h => canon_kernel sel G H _ _ hG hH
+      (crnOrderOf_isOrder CrnLabel.lt CrnLabel.lt_strictTotal sel G hG.1 dG)
+      (crnOrderOf_isOrder CrnLabel.lt CrnLabel.lt_strictTotal sel H hH.1 dH) h,
+    fun h => (crn_ir_invariant sel G H hG hH aG aH h).2⟩
+
+/-- Both views of every network satisfy the attribute hypothesis (bipartite: node keys among
+`kind`, `bipartite`; species: node key `kind`; every choice of arc keys). -/
+theorem views_attrOK (sel : SelD) (stoich : Bool) (N : Net) :
+    ((∀ k ∈ sel.nodeKeys, k = "kind" ∨ k = "bipartite") → CrnAttrOK sel (viewBip stoich N)) ∧
+    ((∀ k ∈ sel.nodeKeys, k = "kind") → CrnAttrOK sel (viewSpecies N)) :=
+  ⟨crnAttrOK_viewBip sel stoich N, crnAttrOK_viewSpecies sel N⟩
+
+/-- **C18, clause 3 at network level, implementation's search (bipartite view).** Networks that
+differ only by species names, reaction order, order inside the sides and reaction ids receive the
+same minimum label and identical canonical graphs. -/
+theorem crn_ir_sameUpToNames_bip (sel : SelD) (stoich : Bool) (N N' : Net)
+    (hsel : ∀ k ∈ sel.nodeKeys, k = "kind" ∨ k = "bipartite")
+    (hN : N.WF) (hN' : N'.WF) (h : SameUpToNames N N') :
+    crnIrLabel sel (viewBip stoich N') = crnIrLabel sel (viewBip stoich N) ∧
+    IsIsoF sel (canonIRD sel (viewBip stoich N')) (canonIRD sel (viewBip stoich N)) id :=
+  crn_ir_invariant sel _ _ (viewBip_wfd' stoich N' hN') (viewBip_wfd' stoich N hN)
+    (crnAttrOK_viewBip sel stoich N' hsel) (crnAttrOK_viewBip sel stoich N hsel)
+    (viewBip_iso_of_sameUpToNames sel stoich N N' hsel hN hN' h)
+
+/-- **… (species view)**, arc keys that do not mention reaction ids (cf.
+`viewSpecies_iso_of_sameUpToNames`); catalysts (self-loops) included. -/
+theorem crn_ir_sameUpToNames_species (sel : SelD) (N N' : Net)
+    (hselN : ∀ k ∈ sel.nodeKeys, k = "kind")
+    (hselE : ∀ k ∈ sel.edgeKeys, k ∉ ["via", "rules", "stoich_r_map", "stoich_p_map"])
+    (hN : N.WF) (hN' : N'.WF) (h : SameUpToNames N N') :
+    crnIrLabel sel (viewSpecies N') = crnIrLabel sel (viewSpecies N) ∧
+    IsIsoF sel (canonIRD sel (viewSpecies N')) (canonIRD sel (viewSpecies N)) id :=
+  crn_ir_invariant sel _ _ (viewSpecies_wfd' N' hN') (viewSpecies_wfd' N hN)
+    (crnAttrOK_viewSpecies sel N' hselN) (crnAttrOK_viewSpecies sel N hselN)
+    (viewSpecies_iso_of_sameUpToNames sel N N' hselN hselE hN hN' h)
+
+/-- **C18, clause 5 for the canonicaliser's own procedure.** `_orbits_from_perms` applied to the
+permutations of the least-label leaves yields a partition of the node set whose classes are
+exactly the orbits of the structure-preserving self-maps: every listed permutation differs from
+the first by such a map (`crn_ir_tie`) and, since nothing is pruned, every such map carries the
+first onto a listed one.  For every label order. -/
+theorem crn_ir_orbits_anyOrder (lt : CrnLabel → CrnLabel → Bool) (hlt : StrictTotal lt) (sel : SelD) (G : LGraph)
+    (hG : G.ids.Nodup) (hd : CrnDefined sel G) (hok : CrnAttrOK sel G) :
+    IsPartition (crnOrbitsFromPerms (crnPermsOf (crnIrWith lt sel G))) G.ids ∧
+    ∀ u ∈ G.ids, ∀ v ∈ G.ids,
+      (SameClass (crnOrbitsFromPerms (crnPermsOf (crnIrWith lt sel G))) u v ↔ ∃ σ ∈ autsD sel G, app σ u = v) :=
+  crnOrbits_exact lt hlt sel G hG hd hok
+
+/-- **… as the driver runs it**: the classes of `orbits` (`crnIrOrbits`) are the classes of the
+specification's orbit partition `orbitsD` (clause 5 above). -/
+theorem crn_ir_orbits (sel : SelD) (G : LGraph) (hG : G.ids.Nodup) (hd : CrnDefined sel G) (hok : CrnAttrOK sel G) :
+    IsPartition (crnIrOrbits sel G) G.ids ∧
+    ∀ u ∈ G.ids, ∀ v ∈ G.ids, (SameClass (crnIrOrbits sel G) u v ↔ SameClass (orbitsD sel G) u v) := by
+  obtain ⟨h1, h2⟩ := crnOrbits_exact CrnLabel.lt CrnLabel.lt_strictTotal sel G hG hd hok
+  refine ⟨h1, fun u hu v hv => ?_⟩
+  rw [(orbits_partition_exact sel G hG).2 u hu v hv]
+  exact h2 u hu v hv
+
+/-- **C18 for the implementation's search, bundled.** For every well-formed pair of networks that
+differ only by names: same minimum label and identical canonical graphs in both views; and for
+every well-formed directed attribute graph with good attributes: the canonical graph is faithful,
+a complete invariant, and the orbits are exact. -/
+def C18.IRStatement : Prop :=
+  (∀ (sel : SelD) (stoich : Bool) (N N' : Net), (∀ k ∈ sel.nodeKeys, k = "kind" ∨ k = "bipartite") →
+    N.WF → N'.WF → SameUpToNames N N' →
+    crnIrLabel sel (viewBip stoich N') = crnIrLabel sel (viewBip stoich N) ∧
+    IsIsoF sel (canonIRD sel (viewBip stoich N')) (canonIRD sel (viewBip stoich N)) id) ∧
+  (∀ (sel : SelD) (N N' : Net), (∀ k ∈ sel.nodeKeys, k = "kind") →
+    (∀ k ∈ sel.edgeKeys, k ∉ ["via", "rules", "stoich_r_map", "stoich_p_map"]) →
+    N.WF → N'.WF → SameUpToNames N N' →
+    crnIrLabel sel (viewSpecies N') = crnIrLabel sel (viewSpecies N) ∧
+    IsIsoF sel (canonIRD sel (viewSpecies N')) (canonIRD sel (viewSpecies N)) id) ∧
+  ∀ (sel : SelD) (G : LGraph), WFD G → CrnAttrOK sel G → CrnDefined sel G →
+    (IsOrder G (crnIrOrder sel G) ∧ IsIsoF sel (canonIRD sel G) G (posOf (crnIrOrder sel G)) ∧
+      (canonIRD sel G).ids.Perm (List.range' 1 G.ids.length)) ∧
+    (∀ H, WFD H → CrnAttrOK sel H → CrnDefined sel H →
+      (IsIsoF sel (canonIRD sel G) (canonIRD sel H) id ↔ ∃ f, IsIsoF sel G H f)) ∧
+    (IsPartition (crnIrOrbits sel G) G.ids ∧
+      ∀ u ∈ G.ids, ∀ v ∈ G.ids, (SameClass (crnIrOrbits sel G) u v ↔ ∃ σ ∈ autsD sel G, app σ u = v))
+
+theorem C18.ir_full : C18.IRStatement := by
+  refine ⟨fun sel st N N' hs hN hN' h => crn_ir_sameUpToNames_bip sel st N N' hs hN hN' h,
+    fun sel N N' h1 h2 hN hN' h => crn_ir_sameUpToNames_species sel N N' h1 h2 hN hN' h, ?_⟩
+  intro sel G hG aG dG
+  refine ⟨?_, fun H hH aH dH => crn_ir_complete sel G H hG hH aG aH dG dH,
+    crn_ir_orbits_anyOrder CrnLabel.lt CrnLabel.lt_strictTotal sel G hG.1 dG aG⟩
+  obtain ⟨h1, h2, h3, _, _⟩ := crn_ir_faithful sel sel G hG dG
+  exact ⟨h1, h2, h3⟩
+
+/-! ### Non-vacuity of the IR section -/
+
+/-- `A + B → A + C`: the catalyst `A` carries a self-loop in the species view. -/
+def exCat : Net := { labels := ["A", "B", "C"], rxns := [⟨"r_1", "r", [(0, 1), (1, 1)], [(0, 1), (2, 1)]⟩] }
+/-- `exCat` renamed (`A ↦ 2, B ↦ 1, C ↦ 0`). -/
+def exCatRenamed : Net := { labels := ["P", "Q", "R"], rxns := [⟨"z", "r", [(1, 1), (2, 1)], [(0, 1), (2, 1)]⟩] }
+
+/-- the hypotheses hold on concrete views (one with a non-trivial automorphism, one with a self-loop) … -/
+example : WFD (viewBip true exRev) ∧ CrnAttrOK selDefault (viewBip true exRev) ∧ CrnDefined selDefault (viewBip true exRev) ∧
+    WFD (viewSpecies exCat) ∧ CrnAttrOK selDefault (viewSpecies exCat) ∧ CrnDefined selDefault (viewSpecies exCat) ∧
+    (viewSpecies exCat).arc? 0 0 ≠ none := by decide
+/-- … the search returns the order the implementation returns (`canonical_perm` of `A + B ⇌ C`:
+`r_2, r_1, C, A, B`), two least-label leaves, the orbit `{A, B}` … -/
+example : crnIrOrder selDefault (viewBip true exRev) = [4, 3, 2, 0, 1] ∧
+    crnIrPerms selDefault (viewBip true exRev) = [[4, 3, 2, 0, 1], [4, 3, 2, 1, 0]] ∧
+    crnIrOrbits selDefault (viewBip true exRev) = [[0, 1], [4], [3], [2]] := by decide +kernel
+/-- … a renamed copy gets a different order but the same label and a key-identical canonical graph … -/
+example : crnIrOrder selDefault (viewBip true exRevRenamed) = [3, 4, 1, 0, 2] ∧
+    crnIrLabel selDefault (viewBip true exRev) = crnIrLabel selDefault (viewBip true exRevRenamed) ∧
+    isIsoFBool selDefault (canonIRD selDefault (viewBip true exRev)) (canonIRD selDefault (viewBip true exRevRenamed)) id = true := by
+  decide +kernel
+/-- … also in the species view with a catalyst; and a near miss gets a different label. -/
+example : crnIrLabel selDefault (viewSpecies exCat) = crnIrLabel selDefault (viewSpecies exCatRenamed) ∧
+    isIsoFBool selDefault (canonIRD selDefault (viewSpecies exCat)) (canonIRD selDefault (viewSpecies exCatRenamed)) id = true ∧
+    crnIrLabel selDefault (viewBip true exStoich) ≠ crnIrLabel selDefault (viewBip false exStoich) := by decide +kernel
 
 end SynKit.CrnCanon
